@@ -704,6 +704,30 @@ func (w *World) teardown() {
 	if w.S == nil {
 		return
 	}
+	w.closeSession(true)
+}
+
+// RestartSession closes the session (driving the loops through their close case) and opens a new one on the
+// same configuration, resume database and storage: a restart of the client inside one execution.
+func (w *World) RestartSession() {
+	for ti := range w.Tors {
+		if _, held := w.mid[ti]; held {
+			w.Continue(ti)
+		}
+	}
+	w.closeSession(false)
+	for ti := range w.Tors {
+		delete(w.Vars, fmt.Sprintf("exited%d", ti))
+	}
+	w.Tors, w.Tor, w.mid = nil, nil, nil
+	w.firstReady = map[string]int{}
+	w.OpenSession()
+	w.AdoptLoadedTorrents()
+}
+
+// closeSession runs Session.Close to completion. final: this is the end of the execution (scripted servers
+// are closed and the clock is run out, because time stops when the bubble's root returns).
+func (w *World) closeSession(final bool) {
 	w.S.VerifFakeDHT(false) // no live DHT node exists in the lab: Close must not try to stop one
 	done := make(chan struct{})
 	go func() { w.S.Close(); close(done) }()
@@ -711,6 +735,9 @@ func (w *World) teardown() {
 		synctest.Wait()
 		select {
 		case <-done:
+			if !final {
+				return
+			}
 			for _, ws := range w.WebSeeds {
 				ws.CloseAll()
 			}
@@ -762,7 +789,7 @@ func (w *World) teardown() {
 			time.Sleep(time.Second)
 		}
 	}
-	core.HarnessError("teardown did not finish")
+	core.HarnessError("session close did not finish")
 }
 
 func (w *World) exited(ti int) bool    { _, ok := w.Vars[fmt.Sprintf("exited%d", ti)]; return ok }
